@@ -108,6 +108,13 @@ func (fc *FnCtx) run() {
 	for _, fv := range fn.FreeVars {
 		fvs = append(fvs, fc.fresh(st, "fv."+fv.Name(), fv.Type()))
 	}
+	// package-level invariants (initialised once, never reassigned: any store to a global fails the frame check)
+	for _, gi := range fc.eng.globalInvs {
+		if fn.Pkg != nil && gi.Pkg == fn.Pkg.Pkg {
+			fc.assume(st, fc.evalBool(env, gi.Clause))
+			fc.note("assumed package invariant: %s", gi.Clause.Text)
+		}
+	}
 	if con != nil {
 		for _, r := range con.Requires {
 			fc.assume(st, fc.evalBool(env, r))
@@ -119,6 +126,9 @@ func (fc *FnCtx) run() {
 	fc.coverPoint(st, "cover.entry", fn.Pos())
 	rets := fc.execBody(fn, st, params, fvs, true, con)
 	for _, r := range rets {
+		// vacuity guard: each return must be reachable under everything assumed on the way
+		// (a contradictory callee contract or invariant would make all later obligations trivial)
+		fc.coverPoint(r.st, "cover.exit", fn.Pos())
 		fc.checkExit(r, env)
 	}
 }
@@ -189,6 +199,12 @@ func (fc *FnCtx) frameGoals(st *State) (goals []frameGoal) {
 	allowedAll := map[string]bool{}
 	for _, a := range con.Assigns {
 		switch a.Kind {
+		case "except":
+			for _, k := range fc.hvOrder {
+				if !exceptMatch(a.Name, k) {
+					allowedAll[k] = true
+				}
+			}
 		case "ghost":
 			allowedAll[fc.ghostKey(a.Name)] = true
 		case "heapvar":
@@ -272,6 +288,8 @@ func (e *Engine) verifyLemma(lm *Lemma) *FuncResult {
 	st := &State{pc: "true", locals: map[*ssa.Alloc]string{}, heap: map[string]string{}, alloc: "1"}
 	env := &specEnv{fc: fc, st: st, vars: map[string]Val{}}
 	g := fc.evalBool(env, &Clause{Text: lm.Text, Expr: lm.Expr, Pos: res.Pos})
+	lm.Formula = g
+	lm.Header = strings.Join(fc.sc.header, "\n")
 	fc.oblige(st, "lemma", g, token.NoPos, lm.Text)
 	res.Obligations = fc.obs
 	res.Errors = fc.errs
